@@ -91,7 +91,7 @@ Proof. vm_compute. repeat split; reflexivity. Qed.
 
 (* ---------- datagrams that cannot be parsed as DTLS records ---------- *)
 
-Lemma recv_recs_bad W full s rs : Forall (fun r => r = RBadHeader) rs -> recv_recs W full s rs = (s, []).
+Lemma recv_recs_bad W full est s rs : Forall (fun r => r = RBadHeader) rs -> recv_recs W full est s rs = (s, []).
 Proof.
   induction 1 as [|r rs Hr _ IH]; [reflexivity|]. subst r. cbn [recv_recs recv_rec existsb].
   now rewrite IH.
@@ -100,7 +100,7 @@ Qed.
 (* every datagram that cannot be parsed as DTLS records - empty, any framing / record-type / unified-header
    error of unpackDatagram, records whose header does not decode - is dropped without any effect, in every
    state (handshake in progress, version negotiation, established) *)
-Theorem undecodable_dropped W full s d : undecodable d -> recv_dgram W full s d = (s, []).
+Theorem undecodable_dropped W full est s d : undecodable d -> recv_dgram W full est s d = (s, []).
 Proof.
   intros Hu. unfold recv_dgram. destruct (r_closed s); [reflexivity|].
   destruct d as [ | | | rs]; try reflexivity. now apply recv_recs_bad.
@@ -163,6 +163,59 @@ Proof.
   destruct (w_ctype w =? ct_ccs) eqn:E2; [lia|].
   destruct (w_ctype w =? ct_cid) eqn:E3; [lia|].
   cbn. destruct (r_cid s); [|discriminate Hcid]. cbn. now rewrite andb_false_r.
+Qed.
+
+(* ---------- non-fatal alerts ---------- *)
+
+(* with room in the buffer and once established, recv_conn is the receive path of Rec/Recv.v *)
+Lemma recv_conn_established W lease s w : recv_conn W lease false true s w = recv W lease s w.
+Proof. unfold recv_conn. rewrite recv_fb_open. cbn [negb andb]. now destruct (recv W lease s w). Qed.
+
+(* WHILE THE HANDSHAKE IS RUNNING an unprotected warning alert (anybody can send one) is inert: it surfaces
+   no error, draws no alert, closes nothing, delivers nothing, and leaves epoch, keys, queue and closed flag
+   alone - at most its own epoch-0 record number is committed *)
+Theorem warning_alert_inert_before_establishment W lease full s w level desc :
+  w_epoch w = 0 -> w_clear w = CAlert level desc -> is_warning (CAlert level desc) = true ->
+  let r := recv_conn W lease full false s w in
+  (snd r = [] \/ snd r = [OMark 0 (w_seq w)]) /\
+  r_epoch (fst r) = r_epoch s /\ r_init (fst r) = r_init s /\ r_queue (fst r) = r_queue s /\
+  r_closed (fst r) = r_closed s /\ r_cid (fst r) = r_cid s.
+Proof.
+  intros He Hb Hw. cbv zeta. unfold recv_conn, disp_content, recv_fb, gated, dispatch. rewrite He, Hb.
+  cbn [N.eqb is_hs andb]. rewrite Hw. cbn [negb andb].
+  cbn [is_warning] in Hw. apply negb_true_iff in Hw. rewrite Hw.
+  assert (Hd : (desc =? desc_close_notify) = false) by (apply orb_false_iff in Hw; tauto). rewrite Hd.
+  destruct (r_closed s) eqn:Ec; [cbn; rewrite ?Ec; auto 10|].
+  destruct (r_epoch s <? 0) eqn:E; [lia|].
+  destruct (negb (check maxseq48 (get_win W 0 (r_wins s)) (w_seq w))); [cbn; rewrite ?Ec; auto 10|].
+  rewrite andb_false_r. cbn. rewrite ?Ec. auto 10.
+Qed.
+
+(* once established the same record is, as coded, handed to Read as an error and the connection continues *)
+Theorem warning_alert_after_establishment W lease s w level desc :
+  r_closed s = false -> w_epoch w = 0 -> w_clear w = CAlert level desc -> is_warning (CAlert level desc) = true ->
+  check maxseq48 (get_win W 0 (r_wins s)) (w_seq w) = true ->
+  snd (recv_conn W lease false true s w) = [OMark 0 (w_seq w); OErr] /\
+  r_closed (fst (recv_conn W lease false true s w)) = false.
+Proof.
+  intros Hc He Hb Hw Hk. rewrite recv_conn_established. unfold recv, dispatch. rewrite Hc, He, Hb, Hk.
+  cbn [is_warning] in Hw. apply negb_true_iff in Hw. rewrite Hw.
+  assert (Hd : (desc =? desc_close_notify) = false) by (apply orb_false_iff in Hw; tauto). rewrite Hd.
+  destruct (r_epoch s <? 0) eqn:E; [lia|]. cbn. now rewrite Hc.
+Qed.
+
+(* as coded, and NOT inert: while a dual-stack endpoint is still negotiating the version, the same warning
+   alert ends the handshake (the error is returned straight out of negotiateVersionClient / -Server) *)
+Theorem warning_alert_negotiating_refuted W lease s w level desc :
+  r_closed s = false -> w_epoch w = 0 -> w_clear w = CAlert level desc -> is_warning (CAlert level desc) = true ->
+  check maxseq48 (get_win W 0 (r_wins s)) (w_seq w) = true ->
+  snd (recv_conn_neg W lease false true false s w) = [OMark 0 (w_seq w); OErr].
+Proof.
+  intros Hc He Hb Hw Hk. unfold recv_conn_neg. rewrite recv_fb_open. unfold recv, dispatch.
+  rewrite Hc, He, Hb, Hk.
+  cbn [is_warning] in Hw. apply negb_true_iff in Hw. rewrite Hw.
+  assert (Hd : (desc =? desc_close_notify) = false) by (apply orb_false_iff in Hw; tauto). rewrite Hd.
+  destruct (r_epoch s <? 0) eqn:E; [lia|]. reflexivity.
 Qed.
 
 (* ---------- forged records ---------- *)
